@@ -249,6 +249,9 @@ func (ev *Evaluator) objVal(obj types.Object) SVal {
 		// package-level variable
 		if ev.pkg != nil {
 			if g, ok := ev.pkg.Prog.Package(o.Pkg()).Members[o.Name()].(*ssa.Global); ok {
+				if tref, ok := fx.globalTable(g, ev.st); ok {
+					return SVal{v: Val{t: tref}, typ: o.Type()}
+				}
 				ref := fx.globalRef(g)
 				return SVal{v: Val{t: fx.load(ev.st, fx.ptrLoc(ref, o.Type()))}, typ: o.Type()}
 			}
@@ -410,6 +413,13 @@ func (ev *Evaluator) sel(x *ESel) SVal {
 	}
 notpkg:
 	b := ev.eval(x.X)
+	if b.v.tup != nil {
+		var k int
+		if _, err := fmt.Sscan(x.Name, &k); err != nil || k < 0 || k >= len(b.v.tup) {
+			unsupported("spec: bad tuple component .%s", x.Name)
+		}
+		return SVal{v: b.v.tup[k], typ: b.typ.(*types.Tuple).At(k).Type()}
+	}
 	t := b.typ
 	if t == nil {
 		unsupported("spec: field selection on spec sort")
@@ -982,8 +992,11 @@ func (ev *Evaluator) goCall(fn *ssa.Function, args []SVal) SVal {
 	res, out := nf.run(vals, nil, st)
 	fx.depth--
 	fx.quiet--
-	if out == nil || len(res) != 1 {
-		unsupported("spec: Go function %s does not return a single value", fn.Name())
+	if out == nil || len(res) == 0 {
+		unsupported("spec: Go function %s does not return a value", fn.Name())
+	}
+	if len(res) > 1 {
+		return SVal{v: Val{tup: res}, typ: fn.Signature.Results()}
 	}
 	return SVal{v: res[0], typ: fn.Signature.Results().At(0).Type()}
 }
